@@ -87,6 +87,9 @@ Qed.
 Lemma lenN_app a b : lenN (a ++ b) = lenN a + lenN b.
 Proof. rewrite !lenN_length, app_length. lia. Qed.
 
+Local Arguments takeN : simpl never.
+Local Arguments dropN : simpl never.
+
 (* ------------------------------------------------------------------ *)
 (* good sources                                                         *)
 (* ------------------------------------------------------------------ *)
@@ -135,7 +138,7 @@ Proof.
   - split; [reflexivity|]. split; [auto|]. intro H. exfalso. apply H. reflexivity.
   - apply good_script_cases in Hg as [(-> & -> & ->) | (-> & Hbs & Hr)].
     + simpl. destruct (N.leb_spec 0 cap); [|lia].
-      split; [reflexivity|]. split; [auto|]. intro H. exfalso. apply H. reflexivity.
+      split; [reflexivity|]. split; [auto|]. intro Hx. exfalso. apply Hx. reflexivity.
     + unfold script_data; simpl. fold (script_data rest).
       destruct (N.leb_spec (lenN bs) cap) as [Hle|Hgt].
       * split; [exact Hr|]. split.
@@ -344,8 +347,15 @@ Section Sims.
   Lemma sim_read_type_or_eof : sim (read_type_or_eof maxdoc).
   Proof. unfold read_type_or_eof. sim_go. Qed.
 
+  Lemma sim_fill_mark at0 n : sim (fill_mark maxdoc at0 n).
+  Proof. unfold fill_mark. sim_go. Qed.
+
   Lemma sim_read_bytes n : sim (read_bytes maxdoc n).
-  Proof. unfold read_bytes. sim_go. Qed.
+  Proof. apply sim_fill_mark. Qed.
+
+  Lemma sim_rd1x : sim (rd1x maxdoc).
+  Proof. unfold rd1x. sim_go. Qed.
+  Hint Resolve sim_fill_mark sim_rd1x : simdb.
 
   Lemma sim_uleb_loop fuel : forall acc shift k, sim (uleb_loop fuel acc shift k).
   Proof.
